@@ -478,7 +478,7 @@ func (e *c39cenv) run(cs c39ccase, free bool) {
 		if win == b {
 			o, oc = a, ca
 		}
-		return fmt.Sprintf("%s won, the other caller's %s (%s) got %s", win.name, o.name, o.class, oc.outcome())
+		return fmt.Sprintf("%s is the current block afterwards, the other caller's %s (%s) got %s", win.name, o.name, o.class, oc.outcome())
 	}
 	if d := vDiff(l.Dump(), refD); len(d) != 0 {
 		r.Violationf(key("stores-differ-from-winner-only-ledger"), cs, "%v: %s; the stores differ from a ledger that received only the winner:%s", cs, loser(), vHexKeys(d))
